@@ -28,7 +28,7 @@ func TestStopDuringPeriodicPass(t *testing.T) {
 					defer runtime.GOMAXPROCS(runtime.GOMAXPROCS(procs))
 				}
 				yields := []int{0, 1, 3, 10, 30, 100, 400}
-				for round := 0; round < vk.Pick(7, 70); round++ {
+				for round := 0; round < vk.Pick(14, 140); round++ {
 					vk.Progress() // one bubble runs all the rounds: tell the watchdog that the case is advancing (a loaded machine needs > 30 s for 70 rounds)
 					c := ttlcache.NewCache[int](ttlcache.CacheOptions{CleanupInterval: time.Second, InitialSize: int32(entries)})
 					for k := 0; k < entries; k++ {
@@ -41,9 +41,31 @@ func TestStopDuringPeriodicPass(t *testing.T) {
 					if n, _ := vk.HelpersInside("ttlcache.", ").Cleanup"); n > 0 {
 						inFlight++
 					}
+					// every other round a second Stop call overlaps the first: EVERY Stop call returns only after the cleaner
+					// has exited, also the one that finds the cache already being stopped
+					second := make(chan string, 1)
+					if round%2 == 1 {
+						go func() {
+							for y := 0; y < yields[(round/2)%len(yields)]; y++ {
+								runtime.Gosched()
+							}
+							c.Stop()
+							if n, st := vk.HelpersInside("ttlcache.", ").Cleanup"); n > 0 {
+								second <- st
+								return
+							}
+							second <- ""
+						}()
+					} else {
+						second <- ""
+					}
 					c.Stop()
 					if n, st := vk.HelpersInside("ttlcache.", ").Cleanup"); n > 0 {
 						errs.Failf("round %d (Stop called %d yields after the tick): Stop returned while a goroutine started by the cache is still inside Cleanup - the background cleaner has not exited:\n%s", round, yields[round%len(yields)], st)
+						return
+					}
+					if st := <-second; st != "" {
+						errs.Failf("round %d: a second, overlapping Stop call returned while a goroutine started by the cache is still inside Cleanup - the background cleaner has not exited:\n%s", round, st)
 						return
 					}
 					if n, st := vk.HelpersParked("ttlcache."); n > 0 {
